@@ -116,6 +116,11 @@ def step (st : St) : List String → St × String
       let tt := ct.toTTables (floatLvl 10) ng 10
       ({ t := tt }, s!"a={showStr alphabet} {showCounts ct} {showLevels tt}")
     | _, _, _, _ => (st, "bad-op")
+  | ["of.alpha", t] =>
+    -- `_load_alphabet` on the decoded text of Omen/alphabet.txt
+    match parseStr t with
+    | some ts => (st, "a=" ++ ",".intercalate ((loadAlphabet (ts.map Char.toNat)).map fun l => showStr (l.map Char.ofNat)))
+    | none => (st, "bad-op")
   | ["of.text", ml, ng, ipT, cpT, lnT] =>
     -- the same from the decoded text of the three files (`loadOmenText`: line iteration, rstrip, split at TAB, int)
     match ml.toNat?, ng.toNat?, parseStr ipT, parseStr cpT, parseStr lnT with
